@@ -128,7 +128,8 @@ fn specs(ctx: &Ctx) -> Vec<ParamSpec> {
         s.push(ParamSpec::Tuple(RefParams { a: 0.5, b: 1.0, g: 1.0, w: 1.0 }));
         s
     } else {
-        vec![ParamSpec::Preset(0), ParamSpec::Preset(3)]
+        // (the tuple: an average-strategy discount so strong that early iterations weigh nothing)
+        vec![ParamSpec::Preset(0), ParamSpec::Preset(3), ParamSpec::Tuple(RefParams { a: 1.5, b: 0.0, g: 5000.0, w: f64::INFINITY })]
     }
 }
 
@@ -150,6 +151,17 @@ fn thresholds(tree: &Tree, game: &crate::subject::G, al: &crate::runner::Alignme
         }
     }
     res.truncate(2);
+    // a threshold that a bound of the run hits exactly (the stop test is strict): the first two
+    // distinct bound values before the last iteration; and +inf (stops after one iteration)
+    let mut exact: Vec<f64> = Vec::new();
+    for b in totals.iter().take(totals.len().saturating_sub(1)) {
+        if b.is_finite() && *b > 0.0 && !exact.contains(b) {
+            exact.push(*b);
+        }
+    }
+    exact.truncate(2);
+    res.extend(exact);
+    res.push(f64::INFINITY);
     res
 }
 
@@ -182,10 +194,10 @@ fn layer_decomposition(ctx: &Ctx, totals: &mut LoomTotals) {
         ctx.set("layer1_deeper_binary_skeletons", json!(skels4.len()));
         games.extend(skels4.iter().enumerate().filter(|(_, s)| s.num_internal() == 4 && super::has_decision(s)).map(|(i, s)| (format!("deep{}", i), fill_distinct(s, i))));
     }
-    let budgets: &[u64] = if ctx.thorough() { &[1, 2, 3, 4, 5, 8] } else { &[1, 2, 3, 4, 8] };
+    let budgets: &[u64] = if ctx.thorough() { &[0, 1, 2, 3, 4, 5, 8] } else { &[0, 1, 2, 3, 4, 8] };
     let targets: Vec<usize> = (1..=12).collect();
     let specs = specs(ctx);
-    ctx.set("layer1_decomposition", json!({"games": games.len(), "budgets": budgets, "task_targets": "1..=12", "presets": specs.iter().map(|s| s.to_json()).collect::<Vec<_>>(), "thresholds": "0, and (on every 7th game and the families) up to two values strictly between consecutive bounds of the 4-iteration run"}));
+    ctx.set("layer1_decomposition", json!({"games": games.len(), "budgets": budgets, "task_targets": "1..=12", "presets": specs.iter().map(|s| s.to_json()).collect::<Vec<_>>(), "thresholds": "0, and (on every 7th game and the families) up to two values strictly between consecutive bounds of the 4-iteration run, up to two values that a bound hits exactly, and +inf"}));
     let lb = LoomBounds { pb3: None, pb4: None, max_permutations: 1, max_seconds: 60 };
     let shared = std::sync::Mutex::new(LoomTotals::default());
     par_for_each(&games, 16, |gi, (name, tree)| {
